@@ -80,10 +80,12 @@ impl UiTokenCollection {
 
     pub fn add_from_regex_match(&mut self, capture: Option<Match<'_>>, token_type: UiTokenType) {
         if let Some(content) = capture {
-            if content.start() < content.end() && self.check_collision(content.start(), content.end()) {
+            let start = self.get_position(content.start());
+            let end = self.get_position(content.end());
+            if start < end && self.check_collision(start, end) {
                 self.tokens.push(UiToken {
-                    start: self.get_position(content.start()),
-                    end: self.get_position(content.end()),
+                    start,
+                    end,
                     ui_type: token_type
                 });
             }
